@@ -166,7 +166,7 @@ func runC03W2(c *Ctx) {
 				return true
 			}
 			sel, ok := sw.Tag.(*ast.SelectorExpr)
-			if !ok || sel.Sel.Name != "id" {
+			if !ok || sel.Sel.Name != currentFieldName("workflowKeyVal.id") {
 				return true
 			}
 			nsw++
